@@ -377,7 +377,7 @@ def frame_predicate_values(M, conds, target="frame.header.header_check_sequence 
         return _FP_MEMO[key]
     vals = set()
     try:
-        src = "def __frame_predicates(frame):\n" + "".join((f"    if not ({e}):\n        return None\n" if pol else f"    if ({e}):\n        return None\n") for e, pol in conds) + f"    return bool({target})\n"
+        src = "def __frame_predicates(frame):\n" + "".join((f"    if not ({e}):\n        return None\n" if pol else f"    if ({e}):\n        return None\n") for e, pol in conds) + f"    if ({target}):\n        return True\n    return False\n"
         node = _ast.parse(src).body[0]
         fn = Func("hdlc", None, "__frame_predicates", node)
         app = M.find_method(FRAME, "append")
